@@ -56,3 +56,25 @@ package logicalplan
 //@   loop 1 invariant kept-or-applied: forall k in 0..rangeindex+1 :: (fw[k] == -1 && inM(replacement, e.LabelMatchers[k])) ||
 //@       (0 <= fw[k] && fw[k] < len(filters) && filters[fw[k]] == e.LabelMatchers[k])
 //@   loop 1 invariant filters-from-selector: forall i in 0..len(filters) :: inM(e.LabelMatchers, filters[i])
+
+// ---- plan.go: traverse / traverseBottomUp (C09, C10) ---------------------------------------------
+// Optimizers replace nodes through the pointer they are handed. Every such pointer refers to a slot
+// of the node being traversed (one of its fields, or an element of Call.Args), never
+// to a temporary copy - otherwise a replacement would be lost while in-place edits of the old node
+// stay (merge-selects: broader matchers without the filter).
+//@ func traverse
+//@   requires expr != nil && !isnil(transform)
+//@   panics may
+//@   at logicalplan.traverse line "Args" assert[C09] call-argument-rewrites-land-in-the-plan: within($expr, node.Args)
+//@   at logicalplan.traverse line "&node.Expr" assert[C09] expr-rewrites-land-in-the-plan: within($expr, node)
+//@   at logicalplan.traverse line "&node.LHS" assert[C09] lhs-rewrites-land-in-the-plan: within($expr, node)
+//@   at logicalplan.traverse line "&node.RHS" assert[C09] rhs-rewrites-land-in-the-plan: within($expr, node)
+//@   loop 0 invariant node != nil && !isnil(transform)
+//@ func traverseBottomUp
+//@   requires current != nil && !isnil(transform)
+//@   panics may
+//@   at logicalplan.traverseBottomUp line "Args" assert[C09,C10] call-argument-rewrites-land-in-the-plan: within($current, node.Args)
+//@   at logicalplan.traverseBottomUp line "&node.Expr" assert[C09,C10] expr-rewrites-land-in-the-plan: within($current, node)
+//@   at logicalplan.traverseBottomUp line "&node.LHS" assert[C09,C10] lhs-rewrites-land-in-the-plan: within($current, node)
+//@   at logicalplan.traverseBottomUp line "&node.RHS" assert[C09,C10] rhs-rewrites-land-in-the-plan: within($current, node)
+//@   loop 0 invariant node != nil && !isnil(transform)
